@@ -135,10 +135,18 @@ def program_src(prog):
              "            \"ep\" => entry_points::reply(deps, env, reply).map_err(|e| verif_rrt::proj_err(&e)),\n"
              "            _ => <dyn sylvia::cw_multi_test::Contract<Empty, Empty>>::reply(&Ctr::new(), deps, env, reply).map_err(|e| verif_rrt::proj_anyhow(&e)),\n"
              "        }\n    }\n\n")
+    o.append("    fn probe(kind: &str, deps: DepsMut, env: Env, doc: &[u8]) -> (bool, bool) {\n"
+             "        use sylvia::cw_std::from_json;\n"
+             "        let info = sylvia::cw_std::testing::message_info(&sylvia::cw_std::Addr::unchecked(\"prober\"), &[]);\n"
+             "        match kind {\n"
+             "            \"exec\" => match from_json::<sv::ContractExecMsg>(doc) { Ok(m) => (true, entry_points::execute(deps, env, info, m).is_ok()), Err(_) => (false, false) },\n"
+             "            \"query\" => match from_json::<sv::ContractQueryMsg>(doc) { Ok(m) => (true, entry_points::query(deps.as_ref(), env, m).is_ok()), Err(_) => (false, false) },\n"
+             "            _ => match from_json::<sv::ContractSudoMsg>(doc) { Ok(m) => (true, entry_points::sudo(deps, env, m).is_ok()), Err(_) => (false, false) },\n"
+             "        }\n    }\n\n")
     boxed = "None" if legacy else "Some(boxed)"
     if not legacy:
         o.append("    fn boxed() -> Box<dyn sylvia::cw_multi_test::Contract<Empty, Empty>> {\n        Box::new(Ctr::new())\n    }\n\n")
-    o.append("    pub fn vt() -> ReplyVt {\n        ReplyVt { id: \"%s\", ids, build, dispatch, boxed: %s }\n    }\n}\n" % (prog["id"], boxed))
+    o.append("    pub fn vt() -> ReplyVt {\n        ReplyVt { id: \"%s\", ids, build, dispatch, probe, boxed: %s }\n    }\n}\n" % (prog["id"], boxed))
     return "".join(o)
 
 
